@@ -256,8 +256,10 @@ def value_universe(quick):
              L(S('ab'), S('cd')), L(I(1), S('a'), C('b'), Y('foo')), L(L(), L(I(1)))]
     dicts = [D([]), D([(I(1), I(2))]), D([(S('a'), L(I(1), I(2))), (Y('k'), S('v'))])]      # (a dictionary nested in a
     # dictionary has no literal: `:{` inside a list literal is not evaluated)
+    # lists of exactly one element: a list is not its element
+    singles = [L(I(7)), L(L(I(7))), L(S('abc')), L(R(2.5)), L(Y('s')), L(C('c'))]
     vals = atoms + lists + dicts
-    return vals[::2] + [L(I(1), L(I(2), L(I(3))))] if quick else vals
+    return (vals[::2] + [L(I(1), L(I(2), L(I(3))))] + singles[:3]) if quick else vals + singles
 
 
 def forms_for(v):
